@@ -138,7 +138,7 @@ func (s Shape) Source(pkg string) string {
 
 // SourceDeco derives a decorated variant of the shape (C14): mode 1 = excluded fields (unexported, and exported but
 // tagged "-", of assorted Go types) inserted at every position; mode 2 = the struct's whole field run moved into an
-// embedded struct; mode 3 = every leaf column is declared together with an unexported field of the same type
+// embedded struct (mode 12: embedded through a pointer); mode 3 = every leaf column is declared together with an unexported field of the same type
 // (`N0, hidden0 int32`). level -1 decorates every struct, otherwise only structs at that nesting depth (0 = root).
 func (s Shape) SourceDeco(pkg string, mode, level int) string {
 	var types []string
@@ -183,9 +183,14 @@ func (s Shape) SourceDeco(pkg string, mode, level int) string {
 			}
 			excl(i + 1)
 		}
-		if mode == 2 && on {
+		if (mode == 2 || mode == 12) && on {
+			// mode 12: embedded through a pointer (`*RecEmb`)
+			star := ""
+			if mode == 12 {
+				star = "*"
+			}
 			types = append(types, fmt.Sprintf("type %sEmb struct {\n%s\n}\n", name, strings.Join(fields, "\n")))
-			types = append(types, fmt.Sprintf("type %s struct {\n\t%sEmb\n}\n", name, name))
+			types = append(types, fmt.Sprintf("type %s struct {\n\t%s%sEmb\n}\n", name, star, name))
 		} else {
 			types = append(types, fmt.Sprintf("type %s struct {\n%s\n}\n", name, strings.Join(fields, "\n")))
 		}
@@ -212,7 +217,10 @@ func (s Shape) SourceDeco(pkg string, mode, level int) string {
 }
 
 // tagFor: the struct tag of a field. Modes 4-6 vary only the tag: 4 = the parquet key between other keys (inert),
-// 5 = no tag at all (the column is named after the field), 6 = a parquet tag spelling out the field name (= mode 5).
+// 5 = no tag at all (the column is named after the field), 6 = a parquet tag spelling out the field name (= mode 5),
+// 13/14 = a column name containing a hyphen / the same name with a marker instead of the hyphen.
+const hyphenMarker = "QHYQ"
+
 func tagFor(mode int, fn string, n int) string {
 	switch mode {
 	case 4:
@@ -221,6 +229,12 @@ func tagFor(mode int, fn string, n int) string {
 		return ""
 	case 6:
 		return fmt.Sprintf(" `parquet:\"%s\"`", fn)
+	case 13:
+		// a column name containing a hyphen (only the tag "-" alone excludes a field)
+		return fmt.Sprintf(" `parquet:\"%s-col\"`", strings.ToLower(fn))
+	case 14:
+		// the same with a marker in place of the hyphen: the two programs must agree up to the marker
+		return fmt.Sprintf(" `parquet:\"%s%scol\"`", strings.ToLower(fn), hyphenMarker)
 	}
 	return fmt.Sprintf(" `parquet:\"%s\"`", strings.ToLower(fn))
 }
